@@ -25,6 +25,8 @@ func main() {
 	case "sysx-worker":
 		sysx.WorkerMain()
 		return
+	case "c14-seq":
+		os.Exit(props.C14SeqMain(os.Args[2:]))
 	case "list":
 		for _, id := range props.IDs() {
 			fmt.Println(id)
@@ -47,6 +49,26 @@ func main() {
 		r := core.NewRun(v.Case.Property, "quick", 0, "exploration")
 		r.Replay = true
 		r.Workers = 1
+		if v.Case.Scenario == "index" {
+			// a case identified by its position in a deterministic enumeration: run the
+			// check restricted to that index
+			var ic core.IndexCase
+			if err := json.Unmarshal(v.Case.Params, &ic); err != nil {
+				fmt.Fprintln(os.Stderr, err)
+				os.Exit(2)
+			}
+			c := props.Get(v.Case.Property)
+			if c == nil {
+				os.Exit(2)
+			}
+			r.Tier, r.OnlyWhat, r.OnlyIndex = ic.Tier, ic.What, ic.Index
+			c.Run(r)
+			code := r.Finish()
+			if code == 0 {
+				fmt.Println("replay: case passes")
+			}
+			os.Exit(code)
+		}
 		if err := props.RunCase(r, v.Case); err != nil {
 			fmt.Fprintln(os.Stderr, err)
 			os.Exit(2)
